@@ -29,6 +29,7 @@ EXTENDS Naturals, Sequences, FiniteSets, TLC, Json, SequencesExt, FiniteSetsExt
 
 CONSTANTS Scope,       \* "tiny" | "small" | "mid" | "full" | "ext" | "bad" | "pick": slice of the input space enumerated by Init
           OneByOne,  \* TRUE: one node per closure step in any order (confluence); FALSE: one layer per step
+          Pick,        \* Scope = "pick": set of graph indices into the full slot space (otherwise unused)
           Mutant       \* "none" for the real design; other values are self-test mutants TLC must reject
 
 VARIABLES g, entries, mode, phase, reach, rank, up, rankUp, step
@@ -160,10 +161,24 @@ SlotSpace ==
     [] Scope = "mid"   -> Slots({"B", "Outer", "Outer.Inner", "A"}, {"Kind", "Outer.Kind"}, {"C", "Outer.Inner.Deep"}, {"B", DepT}, {"ResChild", "Ghost"},
                                 {"Outer.Inner", "Meta"}, {"C", "Kind2"})
     [] Scope = "full"  -> Slots(A1, A2, BB, CC, RF, LR, RS)
-    [] Scope = "ext"   -> Slots({"none", "B", "Outer.Inner"}, {"none", "Outer.Kind"}, {"none", "C"}, {"none"}, {"none", "Res"}, {"B"}, {"none", "Kind2"})
-    [] Scope = "tiny"  -> Slots({"B", "Outer.Inner"}, {"Outer.Kind"}, {"C"}, {"B"}, {"Res"}, {"Outer.Inner"}, {"Kind2"})
+    [] Scope = "ext"   -> Slots({"none", "B"}, {"Kind"}, {"C"}, {"none"}, {"none", "Res"}, {"B"}, {"Kind2"})
+    [] Scope = "tiny"  -> Slots({"B", "Outer.Inner"}, {"Kind"}, {"C"}, {"B"}, {"Res"}, {"Outer.Inner"}, {"Kind2"})
     [] OTHER           -> Slots({"B"}, {"Kind"}, {"C"}, {"none"}, {"Res"}, {"B"}, {"none"})
-Graphs == IF Scope = "ext" THEN {ExtGraph(s) : s \in SlotSpace} ELSE {StdGraph(s) : s \in SlotSpace}
+\* Scope = "pick": the graphs of the full space whose index is in Pick (the harness draws the indices from --seed)
+A1s == <<"none", "B", "Outer", "Outer.Inner", "A">>
+A2s == <<"none", "Kind", "Outer.Kind">>
+BBs == <<"none", "C", "A", "Outer.Inner.Deep">>
+CCs == <<"none", "B", DepT>>
+RFs == <<"none", "Res", "ResChild", "Ghost">>
+LRs == <<"B", "Outer.Inner", "Meta">>
+RSs == <<"none", "C", "Kind2">>
+FullSize == 5 * 3 * 4 * 3 * 4 * 3 * 3
+PickSlots(i) == [a1 |-> A1s[(i % 5) + 1], a2 |-> A2s[((i \div 5) % 3) + 1], b |-> BBs[((i \div 15) % 4) + 1],
+                 c |-> CCs[((i \div 60) % 3) + 1], ref |-> RFs[((i \div 180) % 4) + 1], lro |-> LRs[((i \div 720) % 3) + 1],
+                 res |-> RSs[((i \div 2160) % 3) + 1]]
+Graphs == CASE Scope = "ext"  -> {ExtGraph(s) : s \in SlotSpace}
+            [] Scope = "pick" -> {StdGraph(PickSlots(i % FullSize)) : i \in Pick}
+            [] OTHER          -> {StdGraph(s) : s \in SlotSpace}
 
 \* settings entries: [ver: version of the library_settings entry, pkg: version prefix of the method, m: "Svc.Rpc"]
 Entry(v, p, m) == [ver |-> v, pkg |-> p, m |-> m]
@@ -201,15 +216,15 @@ Validate == /\ phase = "validate"
             /\ rank' = [x \in reach' |-> 0]
             /\ UNCHANGED <<g, entries, mode, up, rankUp, step>>
 
-\* the relation the iteration really follows (mutants break one clause each)
-StepRel(G, u, x, y) ==
-  CASE Mutant = "skip_nested_enums" -> Rel(G, u, x, y) /\ ~(E_nested(G, x, y) /\ y \in G.enums /\ ~E_field(G, x, y))
-    [] Mutant = "skip_lro_meta"     -> Rel(G, u, x, y) /\ ~(E_lroMeta(G, x, y) /\ ~E_io(G, x, y) /\ ~E_lroResp(G, x, y))
-    [] Mutant = "skip_refs"         -> Rel(G, u, x, y) /\ ~(E_ref(G, x, y) /\ ~E_field(G, x, y))
-    [] Mutant = "skip_poll"         -> Rel(G, u, x, y) /\ ~E_poll(G, x, y)
-    [] Mutant = "parents_only"      -> IF u THEN (E_parent(G, x, y) \/ (Down(G, x, y) /\ x \in reach)) ELSE Down(G, x, y)
-    [] OTHER                        -> Rel(G, u, x, y)
-Frontier(u, S) == {y \in Nodes(g) : \E x \in S : StepRel(g, u, x, y)} \ S
+\* what the iteration really follows from one node (mutants break one clause each)
+StepOut(G, u, x) ==
+  CASE Mutant = "skip_nested_enums" -> Out(G, u, x) \ ((O_nested(G, x) \cap G.enums) \ O_field(G, x))
+    [] Mutant = "skip_lro_meta"     -> Out(G, u, x) \ ({y \in Nodes(G) : E_lroMeta(G, x, y)} \ (O_io(G, x) \cup {y \in Nodes(G) : E_lroResp(G, x, y)}))
+    [] Mutant = "skip_refs"         -> Out(G, u, x) \ (O_ref(G, x) \ O_field(G, x))
+    [] Mutant = "skip_poll"         -> Out(G, u, x) \ O_poll(G, x)
+    [] Mutant = "parents_only"      -> IF u /\ x \notin reach THEN O_parent(G, x) ELSE Out(G, u, x)
+    [] OTHER                        -> Out(G, u, x)
+Frontier(u, S) == UNION {StepOut(g, u, x) : x \in S} \ S
 
 StepReach == /\ phase = "reach"
              /\ LET F == Frontier(FALSE, reach) IN
@@ -261,7 +276,10 @@ ClientsOK(C)   == C = Clients
 Orphans == {x \in Required : \E e \in g.parent : e.c = x /\ e.p \notin Required}
 RECURSIVE FieldClose(_)
 FieldClose(S) == LET T == S \cup {y \in Types(g) : \E x \in S : E_field(g, x, y)} IN IF T = S THEN S ELSE FieldClose(T)
-Taint == {x \in Required : FieldClose({x}) \cap Orphans # {}}
+KindOf(x) == IF x \in g.enums THEN "enum" ELSE "message"
+Taint == {x \in Required : FieldClose({x}) \cap Orphans # {}}       \* kept types that refer (transitively, by fields) to an orphan
+\* a listed extended-operation RPC whose polling method is not listed itself (internal mode hides the polling method)
+PollHidden == {n \in Public : \E p \in Internal : E_poll(g, n, p)}
 Kinds == <<"io", "lro-response", "lro-metadata", "field", "nested", "resource-reference">>
 KindRel(k, x, y) == CASE k = "io" -> E_io(g, x, y) [] k = "lro-response" -> E_lroResp(g, x, y) [] k = "lro-metadata" -> E_lroMeta(g, x, y)
                       [] k = "field" -> E_field(g, x, y) [] k = "nested" -> E_nested(g, x, y) [] OTHER -> E_ref(g, x, y)
@@ -312,9 +330,10 @@ Inv_Off == Closed /\ Sel = "off" => Required = Types(g) /\ Public = RpcNames(g) 
 Case == [graph |-> g, entries |-> entries, listed |-> Listed, mode |-> mode, sel |-> Sel,
          expect |-> IF phase = "failed"
                     THEN [fail |-> TRUE, reach |-> {}, reachUp |-> {}, public |-> {}, internal |-> {}, svcs |-> {}, clients |-> {},
-                          orphans |-> {}, taint |-> {}, why |-> {}]
+                          orphans |-> {}, taint |-> {}, pollHidden |-> {}, why |-> {}]
                     ELSE [fail |-> FALSE, reach |-> Required, reachUp |-> Permitted, public |-> Public, internal |-> Internal,
-                          svcs |-> KeptSvcs, clients |-> Clients, orphans |-> Orphans, taint |-> Taint,
+                          svcs |-> KeptSvcs, clients |-> Clients, orphans |-> {[t |-> x, kind |-> KindOf(x)] : x \in Orphans}, taint |-> Taint,
+                          pollHidden |-> PollHidden,
                           why |-> IF Sel = "prune" THEN {[t |-> y, kinds |-> Why(y)] : y \in Required} ELSE {}]]
 Emit == phase \in {"done", "failed"} => PrintT(<<"CASE", ToJson(Case)>>)
 =============================================================================
